@@ -9,7 +9,18 @@ import time
 VERIF = os.path.dirname(os.path.dirname(os.path.abspath(__file__)))
 COQ = os.path.join(VERIF, 'coq')
 WORK = os.path.join(VERIF, '.work')
-NPROC = int(os.environ.get('VERIF_JOBS', '16'))
+def default_jobs():
+    """VERIF_JOBS if set; else 16 scaled down when the machine is already busy (several checks running at once)"""
+    if os.environ.get('VERIF_JOBS'):
+        return max(1, int(os.environ['VERIF_JOBS']))
+    try:
+        load = os.getloadavg()[0]
+    except OSError:
+        load = 0.0
+    return max(4, min(16, int(20 - load)))
+
+
+NPROC = default_jobs()
 
 
 class BuildLock:
